@@ -182,7 +182,9 @@ func vh_C11_expand() {
 	op := 1 + vChoose(8, "op") // every operator except the working-directory one
 	pos := vChoose(3, "pos")
 	spelled := vC11Spell(kind, append(full, "root.json"), op, pos)
-	rootText := `{"swagger":"2.0","info":{"title":"t","version":"1"},"paths":{},"definitions":{"node":{"properties":{"next":{"$ref":"root.json#/definitions/node"},"other":{"$ref":"sub/o.json#/definitions/O"}}}}}`
+	// (no object of the document has two members whose expansion order could matter: where a cycle is cut depends
+	// on the order in which Go's randomised map iteration visits properties, which is not this property's subject)
+	rootText := `{"swagger":"2.0","info":{"title":"t","version":"1"},"paths":{},"definitions":{"node":{"properties":{"next":{"$ref":"root.json#/definitions/node"}},"items":{"$ref":"sub/o.json#/definitions/O"}}}}`
 	otherText := `{"definitions":{"O":{"description":"o","items":{"$ref":"../root.json#/definitions/node"}}}}`
 	run := func(base string) ([]byte, bool, []string) {
 		var log []string
